@@ -1,66 +1,719 @@
 package main
 
 import (
+	"bufio"
 	_ "embed"
+	"encoding/json"
 	"flag"
 	"fmt"
 	"os"
+	"os/exec"
+	"path/filepath"
+	"runtime"
+	"sort"
+	"strings"
+	"sync"
+	"time"
 
+	"Havoc/verifsim/props"
 	"Havoc/verifsim/world"
 )
 
 //go:embed 404.html
 var decoy []byte
 
-func main() {
-	mode := flag.String("mode", "smoke", "")
-	seed := flag.Uint64("seed", 1, "")
-	dir := flag.String("dir", "", "")
-	flag.Parse()
-	world.SetDecoy(decoy)
-	switch *mode {
-	case "smoke":
-		os.Exit(smoke(*seed, *dir))
-	}
+type runLine struct {
+	Run     int           `json:"run"`
+	Res     *props.Result `json:"res"`
+	Replays map[string]string `json:"replays,omitempty"` // signature -> replay file
+	WallMs  int64         `json:"wall_ms"`
+	Plan    *props.Plan   `json:"plan,omitempty"` // sample
 }
 
-func smoke(seed uint64, dir string) int {
-	if dir == "" {
-		dir, _ = os.MkdirTemp("/dev/shm", "smoke")
-		defer os.RemoveAll(dir)
+type replayFile struct {
+	Property  string      `json:"property"`
+	Signature string      `json:"signature"`
+	Detail    string      `json:"detail"`
+	Digest    uint64      `json:"digest"`
+	Plan      *props.Plan `json:"plan"`
+	Note      string      `json:"note"`
+}
+
+type knownFinding struct {
+	Property  string `json:"property"`
+	Signature string `json:"signature"` // exact, or prefix when it ends in '*'
+	What      string `json:"what"`
+	Status    string `json:"status"` // "known" | "fixed"
+	Commit    string `json:"commit,omitempty"`
+}
+
+func main() {
+	mode := flag.String("mode", "smoke", "smoke|worker|replay|check|determinism")
+	prop := flag.String("prop", "", "property id")
+	seed := flag.Uint64("seed", 1, "VERIF_SEED")
+	tier := flag.String("tier", "quick", "quick|thorough")
+	from := flag.Int("from", 0, "first run index (worker)")
+	stride := flag.Int("stride", 1, "run index stride (worker)")
+	maxRuns := flag.Int("runs", 0, "total runs (0 = tier default)")
+	deadline := flag.Int64("deadline", 0, "unix time after which workers stop")
+	file := flag.String("file", "", "replay file")
+	base := flag.String("base", "", "scratch base directory")
+	verif := flag.String("verif", "/verif", "verif directory")
+	workers := flag.Int("workers", 0, "worker processes")
+	trace := flag.Bool("trace", false, "print violations in detail")
+	flag.Parse()
+	world.SetDecoy(decoy)
+	os.Setenv("TZ", "UTC")
+	time.Local = time.UTC
+	if *base == "" {
+		*base = os.Getenv("TMPDIR")
+		if *base == "" {
+			*base = "/dev/shm"
+		}
+		if fi, err := os.Stat(*base); err != nil || !fi.IsDir() {
+			*base = "/tmp"
+		}
 	}
-	w := world.New(seed, dir, world.DefaultConfig())
-	if err := w.Boot(); err != nil {
-		fmt.Println("boot failed:", err, w.Sim.Problems)
+	switch *mode {
+	case "smoke":
+		os.Exit(smoke(*seed, ""))
+	case "worker":
+		os.Exit(worker(*prop, *seed, *tier, *from, *stride, *maxRuns, *deadline, *base, *verif))
+	case "replay":
+		os.Exit(replay(*file, *base, *trace))
+	case "check":
+		os.Exit(check(*prop, *seed, *tier, *maxRuns, *workers, *base, *verif))
+	case "determinism":
+		os.Exit(determinism(*prop, *seed, *tier, *from, *maxRuns, *base))
+	case "one":
+		os.Exit(one(*prop, *seed, *tier, *from, *base))
+	}
+	fmt.Fprintln(os.Stderr, "unknown mode")
+	os.Exit(2)
+}
+
+func loadKnown(verif string) []knownFinding {
+	var ks []knownFinding
+	b, err := os.ReadFile(filepath.Join(verif, "known_findings.json"))
+	if err != nil {
+		return nil
+	}
+	var doc struct {
+		Findings []knownFinding `json:"findings"`
+	}
+	if json.Unmarshal(b, &doc) == nil {
+		ks = doc.Findings
+	}
+	return ks
+}
+
+func matchKnown(ks []knownFinding, sig string) *knownFinding {
+	for i := range ks {
+		k := &ks[i]
+		if k.Status != "known" {
+			continue
+		}
+		if strings.HasSuffix(k.Signature, "*") {
+			if strings.HasPrefix(sig, strings.TrimSuffix(k.Signature, "*")) {
+				return k
+			}
+		} else if k.Signature == sig {
+			return k
+		}
+	}
+	return nil
+}
+
+// ---- one run, printed ---------------------------------------------------------------------
+
+func one(prop string, seed uint64, tier string, run int, base string) int {
+	pr := props.Registry[prop]
+	if pr == nil {
+		fmt.Fprintln(os.Stderr, "unknown property", prop)
 		return 2
 	}
-	fmt.Println("booted; steps", w.Sim.Step, "listeners", len(w.TS.Listeners), "problems", w.Sim.Problems)
-	for _, t := range w.Sim.LiveTasks() {
-		fmt.Println(" task", t.Name, t.State, t.BlockOn)
-	}
-	op := w.NewOperator("neo", "pw-neo")
-	fmt.Println("login:", op.Login(), "events:", len(op.Events))
-	d := w.NewDemon(0x1234abcd, 8080)
-	d.Key = make([]byte, 32)
-	d.IV = make([]byte, 16)
-	for i := range d.Key {
-		d.Key[i] = byte(i + 1)
-	}
-	for i := range d.IV {
-		d.IV[i] = byte(0xf0 + i)
-	}
-	d.Meta = world.Meta{Hostname: "HOST1", Username: "alice", Domain: "CORP", InternalIP: "10.1.1.7", ProcessPath: "C:\\Windows\\explorer.exe", PID: 4242, TID: 7, PPID: 1, Arch: 2, OS: [5]uint32{10, 0, 1, 0, 19045}, OSArch: 9, Sleep: 5, Jitter: 10}
-	c, ok := w.Register(d)
-	fmt.Println("register:", ok, c.Rec.Status(), len(w.TS.Agents.Agents))
-	op.Task(d.NameID(), "0000a001", world.CmdSleep, "sleep 10 20", map[string]any{"Arguments": "10;20"})
-	w.Sim.Settle()
-	c, ts := w.Checkin(d)
-	fmt.Println("checkin:", c.Rec.Status(), len(ts))
-	for _, t := range ts {
-		fmt.Printf("  task cmd=%d rid=%x body=%x\n", t.Cmd, t.RID, t.Body)
-	}
-	op.Pump()
-	fmt.Println("operator events:", len(op.Events), "steps:", w.Sim.Step, "digest:", w.Sim.Digest(), "problems:", w.Sim.Problems)
-	w.Close()
+	plan := pr.Gen(seed, run, tier)
+	dir := props.RunDir(base, run)
+	defer os.RemoveAll(dir)
+	res := props.SafeExec(pr, plan, dir)
+	pj, _ := json.Marshal(trimPlan(plan))
+	fmt.Println("plan:", string(pj))
+	rj, _ := json.MarshalIndent(res, "", " ")
+	fmt.Println(string(rj))
 	return 0
+}
+
+// ---- worker ---------------------------------------------------------------------------------
+
+func worker(prop string, seed uint64, tier string, from, stride, maxRuns int, deadline int64, base, verif string) int {
+	pr := props.Registry[prop]
+	if pr == nil {
+		fmt.Fprintln(os.Stderr, "unknown property", prop)
+		return 2
+	}
+	known := loadKnown(verif)
+	out := bufio.NewWriter(os.Stdout)
+	defer out.Flush()
+	shrunk := map[string]bool{}
+	enc := json.NewEncoder(out)
+	for run := from; run < maxRuns; run += stride {
+		if deadline > 0 && time.Now().Unix() > deadline {
+			break
+		}
+		t0 := time.Now()
+		plan := pr.Gen(seed, run, tier)
+		dir := props.RunDir(base, run)
+		res := props.SafeExec(pr, plan, dir)
+		os.RemoveAll(dir)
+		os.RemoveAll(dir + ".crash")
+		line := runLine{Run: run, Res: res}
+		if run < 3*stride {
+			line.Plan = trimPlan(plan)
+		}
+		for _, v := range res.Violations {
+			sig := v.Signature()
+			if shrunk[sig] || matchKnown(known, sig) != nil {
+				continue
+			}
+			shrunk[sig] = true
+			min, mres := shrink(pr, plan, res, sig, base)
+			rf := replayFile{Property: prop, Signature: sig, Detail: v.Detail, Digest: mres.Digest, Plan: min,
+				Note: "replay with: ./check --replay <this file>"}
+			for _, mv := range mres.Violations {
+				if mv.Signature() == sig {
+					rf.Detail = mv.Detail
+				}
+			}
+			os.MkdirAll(filepath.Join(verif, "replays"), 0755)
+			name := filepath.Join(verif, "replays", fmt.Sprintf("%s-%d-%d-%08x.json", prop, seed, run, fnv32(sig)))
+			b, _ := json.MarshalIndent(rf, "", " ")
+			if err := os.WriteFile(name, b, 0644); err == nil {
+				if line.Replays == nil {
+					line.Replays = map[string]string{}
+				}
+				line.Replays[sig] = name
+			}
+		}
+		line.WallMs = time.Since(t0).Milliseconds()
+		enc.Encode(line)
+		out.Flush()
+	}
+	return 0
+}
+
+func fnv32(s string) uint32 {
+	h := uint32(2166136261)
+	for i := 0; i < len(s); i++ {
+		h ^= uint32(s[i])
+		h *= 16777619
+	}
+	return h
+}
+
+func trimPlan(p *props.Plan) *props.Plan {
+	q := p.Clone()
+	for i := range q.Actions {
+		if len(q.Actions[i].X) > 64 {
+			q.Actions[i].X = q.Actions[i].X[:64]
+		}
+		if len(q.Actions[i].S) > 200 {
+			q.Actions[i].S = q.Actions[i].S[:200] + "…"
+		}
+	}
+	return q
+}
+
+// ---- shrinking --------------------------------------------------------------------------------
+
+func shrink(pr props.Prop, plan *props.Plan, res *props.Result, sig string, base string) (*props.Plan, *props.Result) {
+	best, bestRes := plan.Clone(), res
+	tries := 0
+	stop := time.Now().Add(40 * time.Second)
+	try := func(c *props.Plan) bool {
+		if time.Now().After(stop) || tries > 400 {
+			return false
+		}
+		tries++
+		dir := props.RunDir(base, 900000+tries)
+		r := props.SafeExec(pr, c, dir)
+		os.RemoveAll(dir)
+		os.RemoveAll(dir + ".crash")
+		if r.HarnessError == "" && r.Has(sig) {
+			best, bestRes = c, r
+			return true
+		}
+		return false
+	}
+	// 1. simplest schedule first: atomic, else the recorded decisions made explicit
+	if best.Policy.Name != "atomic" {
+		c := best.Clone()
+		c.Policy = props.AtomicPolicy()
+		if !try(c) && best.Policy.Name != "explicit" {
+			c := best.Clone()
+			c.Policy = props.ExplicitPolicy(bestRes.RecPreempt, bestRes.RecPick)
+			try(c)
+		}
+	}
+	// 2. shortest failing prefix (binary search)
+	lo, hi := 0, len(best.Actions)
+	for lo < hi {
+		mid := (lo + hi) / 2
+		c := best.Clone()
+		c.Truncate(mid)
+		if try(c) {
+			hi = mid
+		} else {
+			lo = mid + 1
+		}
+	}
+	// 3. drop single actions until fixpoint
+	for changed := true; changed; {
+		changed = false
+		for i := len(best.Actions) - 1; i >= 0; i-- {
+			if i >= len(best.Actions) {
+				continue
+			}
+			c := best.Clone()
+			c.DropAction(i)
+			if try(c) {
+				changed = true
+			}
+		}
+	}
+	// 4. drop preemption points
+	if best.Policy.Name == "explicit" {
+		for changed := true; changed; {
+			changed = false
+			for i := len(best.Policy.Preempt) - 1; i >= 0; i-- {
+				if i >= len(best.Policy.Preempt) {
+					continue
+				}
+				c := best.Clone()
+				c.Policy.Preempt = append(c.Policy.Preempt[:i:i], c.Policy.Preempt[i+1:]...)
+				if try(c) {
+					changed = true
+				}
+			}
+		}
+		c := best.Clone()
+		c.Policy.Pick = nil
+		try(c)
+	}
+	// 5. smaller world
+	for _, k := range []string{"demons", "ops"} {
+		for best.Knob(k, 1) > 1 {
+			c := best.Clone()
+			c.Knobs[k] = c.Knobs[k] - 1
+			if !try(c) {
+				break
+			}
+		}
+	}
+	// 6. smaller values
+	for i := range best.Actions {
+		for _, f := range []string{"D", "A", "B", "C"} {
+			c := best.Clone()
+			a := &c.Actions[i]
+			switch f {
+			case "D":
+				if a.D <= 1 {
+					continue
+				}
+				a.D = a.D / 2
+			case "A":
+				if a.A == 0 || a.Kind == "par" {
+					continue
+				}
+				a.A = 0
+			case "B":
+				if a.B == 0 {
+					continue
+				}
+				a.B = 0
+			case "C":
+				if a.C == 0 {
+					continue
+				}
+				a.C = 0
+			}
+			try(c)
+		}
+	}
+	return best, bestRes
+}
+
+// ---- replay ---------------------------------------------------------------------------------
+
+func replay(file, base string, trace bool) int {
+	b, err := os.ReadFile(file)
+	if err != nil {
+		fmt.Fprintln(os.Stderr, err)
+		return 2
+	}
+	var rf replayFile
+	if err := json.Unmarshal(b, &rf); err != nil || rf.Plan == nil {
+		fmt.Fprintln(os.Stderr, "bad replay file:", err)
+		return 2
+	}
+	pr := props.Registry[rf.Property]
+	if pr == nil {
+		fmt.Fprintln(os.Stderr, "unknown property", rf.Property)
+		return 2
+	}
+	dir := props.RunDir(base, 0)
+	defer os.RemoveAll(dir)
+	res := props.SafeExec(pr, rf.Plan, dir)
+	os.RemoveAll(dir + ".crash")
+	ok := res.Has(rf.Signature)
+	fmt.Printf("REPLAY property=%s signature=%q reproduced=%v digest=%d expected_digest=%d\n", rf.Property, rf.Signature, ok, res.Digest, rf.Digest)
+	for _, v := range res.Violations {
+		fmt.Printf("  violation %s: %s (action %d, step %d)\n", v.Signature(), v.Detail, v.Action, v.Step)
+	}
+	if res.HarnessError != "" {
+		fmt.Println("  harness error:", res.HarnessError)
+		return 2
+	}
+	if ok {
+		if res.Digest != rf.Digest {
+			fmt.Println("  note: same violation, different event-log digest")
+		}
+		return 1
+	}
+	return 0
+}
+
+// ---- determinism self-test ----------------------------------------------------------------------
+
+func determinism(prop string, seed uint64, tier string, from, n int, base string) int {
+	// prints one line per run: run, digest, steps, violations — the caller diffs several executions
+	ids := props.IDs()
+	if prop != "" {
+		ids = strings.Split(prop, ",")
+	}
+	if n == 0 {
+		n = 4
+	}
+	for _, id := range ids {
+		pr := props.Registry[id]
+		if pr == nil {
+			continue
+		}
+		for run := from; run < from+n; run++ {
+			plan := pr.Gen(seed, run, tier)
+			dir := props.RunDir(base, run)
+			res := props.SafeExec(pr, plan, dir)
+			os.RemoveAll(dir)
+			os.RemoveAll(dir + ".crash")
+			var sigs []string
+			for _, v := range res.Violations {
+				sigs = append(sigs, v.Signature())
+			}
+			fmt.Printf("%s run=%d digest=%d steps=%d fp=%d viol=%v err=%q\n", id, run, res.Digest, res.Steps, res.Fingerprint, sigs, res.HarnessError)
+		}
+	}
+	return 0
+}
+
+// ---- supervisor -------------------------------------------------------------------------------
+
+type tierCfg struct {
+	runs    int
+	budgetS int
+}
+
+func tierOf(prop, tier string) tierCfg {
+	q := map[string]int{"C01": 1600, "C02": 1200, "C03": 1200, "C04": 1000, "C05": 1200, "C06": 1200, "C07": 1200, "C08": 1000, "C09": 1500, "C10": 500, "C11": 1000, "C12": 1600, "C15": 800, "C16": 1000}
+	n := q[prop]
+	if n == 0 {
+		n = 800
+	}
+	if tier == "thorough" {
+		return tierCfg{runs: n * 25, budgetS: 1500}
+	}
+	return tierCfg{runs: n, budgetS: 100}
+}
+
+func check(prop string, seed uint64, tier string, maxRuns, workers int, base, verif string) int {
+	t0 := time.Now()
+	pr := props.Registry[prop]
+	if pr == nil {
+		fmt.Fprintln(os.Stderr, "unknown property", prop)
+		return 2
+	}
+	tc := tierOf(prop, tier)
+	if maxRuns > 0 {
+		tc.runs = maxRuns
+	}
+	if s := os.Getenv("VERIF_BUDGET_S"); s != "" {
+		fmt.Sscan(s, &tc.budgetS)
+	}
+	if workers <= 0 {
+		workers = runtime.NumCPU()
+		if workers > 16 {
+			workers = 16
+		}
+	}
+	known := loadKnown(verif)
+	deadline := time.Now().Add(time.Duration(tc.budgetS) * time.Second).Unix()
+	self, _ := os.Executable()
+	scratch, err := os.MkdirTemp(base, "verifrun.")
+	if err != nil {
+		fmt.Fprintln(os.Stderr, err)
+		return 2
+	}
+	defer os.RemoveAll(scratch)
+
+	fmt.Printf("VERIF_SEED=%d property=%s tier=%s runs<=%d workers=%d budget=%ds\n", seed, prop, tier, tc.runs, workers, tc.budgetS)
+
+	var mu sync.Mutex
+	var lines []runLine
+	var wg sync.WaitGroup
+	trouble := ""
+	for i := 0; i < workers; i++ {
+		wg.Add(1)
+		go func(i int) {
+			defer wg.Done()
+			cmd := exec.Command(self, "-mode", "worker", "-prop", prop, "-seed", fmt.Sprint(seed), "-tier", tier,
+				"-from", fmt.Sprint(i), "-stride", fmt.Sprint(workers), "-runs", fmt.Sprint(tc.runs),
+				"-deadline", fmt.Sprint(deadline), "-base", scratch, "-verif", verif)
+			cmd.Env = append(os.Environ(), "GOMAXPROCS=2", "TZ=UTC")
+			cmd.Stderr = os.Stderr
+			so, err := cmd.StdoutPipe()
+			if err != nil {
+				mu.Lock()
+				trouble = err.Error()
+				mu.Unlock()
+				return
+			}
+			if err := cmd.Start(); err != nil {
+				mu.Lock()
+				trouble = err.Error()
+				mu.Unlock()
+				return
+			}
+			// watchdog: a worker silent for too long is stuck in uninstrumented code
+			last := time.Now()
+			var lmu sync.Mutex
+			done := make(chan struct{})
+			go func() {
+				tk := time.NewTicker(2 * time.Second)
+				defer tk.Stop()
+				for {
+					select {
+					case <-done:
+						return
+					case <-tk.C:
+						lmu.Lock()
+						idle := time.Since(last)
+						lmu.Unlock()
+						if idle > 240*time.Second {
+							cmd.Process.Kill()
+							mu.Lock()
+							trouble = fmt.Sprintf("worker %d made no progress for %v (watchdog)", i, idle)
+							mu.Unlock()
+							return
+						}
+					}
+				}
+			}()
+			sc := bufio.NewScanner(so)
+			sc.Buffer(make([]byte, 1<<20), 64<<20)
+			for sc.Scan() {
+				var l runLine
+				if err := json.Unmarshal(sc.Bytes(), &l); err != nil {
+					continue
+				}
+				lmu.Lock()
+				last = time.Now()
+				lmu.Unlock()
+				mu.Lock()
+				lines = append(lines, l)
+				mu.Unlock()
+			}
+			close(done)
+			if err := cmd.Wait(); err != nil {
+				mu.Lock()
+				if trouble == "" {
+					trouble = fmt.Sprintf("worker %d: %v", i, err)
+				}
+				mu.Unlock()
+			}
+		}(i)
+	}
+	wg.Wait()
+	sort.Slice(lines, func(i, j int) bool { return lines[i].Run < lines[j].Run })
+
+	// aggregate
+	ev := map[string]any{}
+	probes := map[string]int{}
+	fps := map[uint64]bool{}
+	var steps, simus, preempt, switches uint64
+	var harnessErrs []string
+	sigCount := map[string]int{}
+	sigDetail := map[string]string{}
+	sigReplay := map[string]string{}
+	var samples []any
+	var observations []string
+	for _, l := range lines {
+		r := l.Res
+		if r == nil {
+			continue
+		}
+		if r.HarnessError != "" {
+			harnessErrs = append(harnessErrs, fmt.Sprintf("run %d: %s", l.Run, r.HarnessError))
+			continue
+		}
+		if r.NonTrivial {
+			fps[r.Fingerprint] = true
+		}
+		for k, v := range r.Probes {
+			probes[k] += v
+		}
+		steps += r.Steps
+		simus += uint64(r.SimMicros)
+		preempt += r.Preemptions
+		switches += r.Switches
+		for _, v := range r.Violations {
+			sigCount[v.Signature()]++
+			if _, ok := sigDetail[v.Signature()]; !ok {
+				sigDetail[v.Signature()] = v.Detail
+			}
+		}
+		for s, f := range l.Replays {
+			if _, ok := sigReplay[s]; !ok {
+				sigReplay[s] = f
+			}
+		}
+		if l.Plan != nil && len(samples) < 3 {
+			samples = append(samples, l.Plan)
+		}
+		for _, o := range r.Observations {
+			if len(observations) < 20 {
+				observations = append(observations, o)
+			}
+		}
+	}
+	wall := time.Since(t0).Seconds()
+
+	exit := 0
+	var sigs []string
+	for s := range sigCount {
+		sigs = append(sigs, s)
+	}
+	sort.Strings(sigs)
+	newViolations := 0
+	knownSeen := map[string]bool{}
+	var vlines []string
+	for _, s := range sigs {
+		if k := matchKnown(known, s); k != nil {
+			if !knownSeen[k.Signature] {
+				knownSeen[k.Signature] = true
+				fmt.Printf("KNOWN-FINDING: property=%s %s [%s, seen in %d run(s)]\n", prop, k.What, k.Signature, sigCount[s])
+			}
+			continue
+		}
+		newViolations++
+		rf := sigReplay[s]
+		if rf == "" {
+			trouble = "violation " + s + " has no replay file"
+			continue
+		}
+		// confirm in a fresh process
+		out, code := runReplay(self, rf, scratch)
+		if code != 1 {
+			trouble = fmt.Sprintf("violation %s did not replay from %s (exit %d): %s", s, rf, code, short(out, 400))
+			continue
+		}
+		vlines = append(vlines, fmt.Sprintf("VIOLATION property=%s replay=%s", prop, rf))
+		fmt.Printf("violation %s: %s (%d run(s))\n", s, sigDetail[s], sigCount[s])
+		exit = 1
+	}
+	for _, v := range vlines {
+		fmt.Println(v)
+	}
+
+	hours := wall / 3600
+	cov := map[string]any{
+		"evaluations":         len(lines),
+		"distinct_nontrivial": len(fps),
+		"rule": "one evaluation = one simulated run of the whole teamserver generated from (VERIF_SEED, run index): world configuration, action list, fault placement and schedule policy all drawn from one PRNG. " +
+			"A run is non-trivial when its property-specific progress probe fired (see probes); distinct = distinct fingerprints, a hash of the sequence of (action kind, argument class, faults fired) and of the abstract states visited.",
+		"samples":              samples,
+		"runs_per_hour":        int(float64(len(lines)) / hours),
+		"scheduler_steps":      steps,
+		"simulated_seconds":    float64(simus) / 1e6,
+		"preemptions_placed":   preempt,
+		"task_switch_choices":  switches,
+		"probes_and_fault_counts": probes,
+		"violation_signatures": sigCount,
+		"known_findings_seen":  len(knownSeen),
+		"real_components":      "cmd/server, pkg/agent, pkg/handlers, pkg/service, pkg/socks, pkg/db + SQLite, pkg/logr, pkg/events, pkg/packager, pkg/common/{parser,packer,crypt,util}, pkg/profile + yaotl loader, gin routing, gorilla/websocket server side",
+		"stub_components":      "TCP/TLS, net/http request parsing and server loop, RSA certificate generation, host interface probes, webhook, payload builder, cmd/server.go prologue (restated by the harness)",
+		"observations":         observations,
+	}
+	ev["property_id"] = prop
+	ev["tier"] = tier
+	ev["seed"] = seed
+	ev["level"] = levelOf(prop)
+	ev["coverage"] = cov
+	ev["assumptions"] = []string{
+		"the typed instrumenter (verifinst rules R1-R11) preserves single-goroutine semantics",
+		"interleavings are explored at the granularity of instrumented yield points (locks, channels, sockets, shared-struct field accesses, loop back-edges)",
+		"reference actors (Demon, operator, service, SOCKS client) are faithful to payloads/Demon and client/ sources",
+	}
+	ev["wall_s"] = wall
+	ev["violations"] = newViolations
+	if len(lines) > 0 && len(fps) >= 2 && trouble == "" && len(harnessErrs) == 0 {
+		os.MkdirAll(filepath.Join(verif, "evidence"), 0755)
+		b, _ := json.MarshalIndent(ev, "", " ")
+		os.WriteFile(filepath.Join(verif, "evidence", prop+".json"), b, 0644)
+	}
+	fmt.Printf("%s %s: %d runs, %d distinct non-trivial, %d steps, %.1fs wall, %d new violation signature(s), %d known\n", prop, tier, len(lines), len(fps), steps, wall, newViolations, len(knownSeen))
+	if len(harnessErrs) > 0 {
+		for i, e := range harnessErrs {
+			if i < 5 {
+				fmt.Fprintln(os.Stderr, "harness error:", e)
+			}
+		}
+		fmt.Fprintf(os.Stderr, "%d run(s) had harness errors\n", len(harnessErrs))
+		return 2
+	}
+	if trouble != "" {
+		fmt.Fprintln(os.Stderr, "trouble:", trouble)
+		return 2
+	}
+	if len(lines) == 0 {
+		fmt.Fprintln(os.Stderr, "no runs completed")
+		return 2
+	}
+	return exit
+}
+
+func levelOf(prop string) string {
+	if prop == "C10" {
+		return "fault_enumeration"
+	}
+	return "exploration"
+}
+
+func runReplay(self, file, base string) (string, int) {
+	cmd := exec.Command(self, "-mode", "replay", "-file", file, "-base", base)
+	cmd.Env = append(os.Environ(), "GOMAXPROCS=2", "TZ=UTC")
+	out, err := cmd.CombinedOutput()
+	code := 0
+	if err != nil {
+		if ee, ok := err.(*exec.ExitError); ok {
+			code = ee.ExitCode()
+		} else {
+			code = 2
+		}
+	}
+	return string(out), code
+}
+
+func short(s string, n int) string {
+	if len(s) > n {
+		return s[:n]
+	}
+	return s
 }
